@@ -58,6 +58,10 @@ class Engine:
         self.key = hashlib.sha1(
             json.dumps(desc, sort_keys=True).encode()).hexdigest()[:12]
         self.pkg = 'vae_' + self.key
+        if desc.get('nested'):
+            # a base package with more than one component (legal: context maps
+            # the dots to path separators)
+            self.pkg = 'vnp_' + self.key + '.ae'
         self.by = {(a['t'], a['n']): a for a in self.algs}
         self.tasks = []
         for a in self.algs:
@@ -287,6 +291,9 @@ class Engine:
             w('        return self._fb')
             w('    def state_vectors(self):')
             w('        return self._svs')
+            if a.get('where'):
+                w('    def where(self):')
+                w(f"        return dawgie.Distribution.{a['where']}")
             if hit('alg-base', a['n']):
                 w('    def sv_as_dict(self):')
                 w('        return {sv.name(): sv for sv in self._svs}')
@@ -357,12 +364,15 @@ class Engine:
         return '\n'.join(L) + '\n'
 
     def write(self, root):
-        base = os.path.join(root, self.pkg)
+        base = os.path.join(root, *self.pkg.split('.'))
         if os.path.isdir(base):
             return base
         os.makedirs(base)
-        with open(os.path.join(base, '__init__.py'), 'w', encoding='utf-8') as f:
-            f.write('')
+        d = root
+        for part in self.pkg.split('.'):
+            d = os.path.join(d, part)
+            with open(os.path.join(d, '__init__.py'), 'w', encoding='utf-8') as f:
+                f.write('')
         for t in self.tasks:
             os.makedirs(os.path.join(base, t))
             with open(os.path.join(base, t, '__init__.py'), 'w', encoding='utf-8') as f:
@@ -399,6 +409,10 @@ def chain_engines():
     out['join'] = [A('ta', 'a'), A('tb', 'b'),
                    A('tc', 'c', inputs=[('ta', 'a', None, None), ('tb', 'b', None, None)])]
     out['pair'] = [A('ta', 'a'), A('tb', 'b')]
+    # placement: an algorithm that asks for the cloud and one whose history
+    # hint (farm.insights) says cloud, on a farm without a cloud agency
+    out['placement'] = [dict(A('ta', 'a'), where='cloud'),
+                        dict(A('ta', 'b', inputs=[('ta', 'a', None, None)]), where='auto')]
     out['task-analysis'] = [A('ta', 'a'),
                             A('tz', 'z', 'analysis', inputs=[('ta', 'a', None, None)])]
     out['task-analysis-task'] = out['task-analysis'] + [
